@@ -9,11 +9,13 @@ from collections import Counter
 ROOT = os.path.dirname(os.path.dirname(os.path.abspath(__file__)))
 REPO = os.environ.get("VERIF_REPO", "/repo")
 BUILD_ROOT = os.path.join(ROOT, "build")
-BUILD = os.path.join(BUILD_ROOT, "souffle")
+# the registered checks always build /repo into build/souffle; sensitivity experiments point VERIF_REPO at a scratch
+# worktree, which gets its own (ccache-backed) build directory so that it never disturbs the real one
+BUILD = os.path.join(BUILD_ROOT, "souffle" if REPO == "/repo" else "souffle-" + hashlib.sha1(REPO.encode()).hexdigest()[:10])
 SOUFFLE = os.path.join(BUILD, "src", "souffle")
 SOUFFLEPROF = os.path.join(BUILD, "src", "souffleprof")
-EVIDENCE_DIR = os.path.join(ROOT, "evidence")
-REPLAY_DIR = os.path.join(ROOT, "replays")
+EVIDENCE_DIR = os.environ.get("VERIF_EVIDENCE_DIR", os.path.join(ROOT, "evidence"))
+REPLAY_DIR = os.environ.get("VERIF_REPLAY_DIR", os.path.join(ROOT, "replays"))
 NCPU = int(os.environ.get("VERIF_JOBS", "16"))
 # Process creation is close to serialised in this sandbox (~200 spawns/s whatever the core count, and contention
 # burns CPU), so checks that spawn one souffle per case gain nothing beyond ~6 workers.
@@ -70,10 +72,15 @@ def ensure_build(quiet=True):
             cmd = ["cmake", "-G", "Ninja", "-S", REPO, "-B", BUILD, "-DCMAKE_BUILD_TYPE=Release",
                    "-DCMAKE_CXX_FLAGS=-Wno-error -D%s" % GUARD, "-DCMAKE_CXX_FLAGS_RELEASE=-O1",
                    "-DSOUFFLE_GIT=OFF", "-DSOUFFLE_ENABLE_TESTING=OFF"]
+            if REPO != "/repo" and shutil.which("ccache"):
+                cmd.append("-DCMAKE_CXX_COMPILER_LAUNCHER=ccache")
             r = subprocess.run(cmd, stdout=log, stderr=subprocess.STDOUT)
             if r.returncode != 0:
                 raise RuntimeError("cmake configure failed; see %s/build.log" % BUILD_ROOT)
-        r = subprocess.run(["ninja", "-C", BUILD, "souffle", "souffleprof"], stdout=log, stderr=subprocess.STDOUT)
+        benv = dict(os.environ)
+        if REPO != "/repo":
+            benv.update({"CCACHE_BASEDIR": REPO, "CCACHE_NOHASHDIR": "1", "CCACHE_DIR": "/tmp/ccache-verif"})
+        r = subprocess.run(["ninja", "-C", BUILD, "souffle", "souffleprof"], stdout=log, stderr=subprocess.STDOUT, env=benv)
         if r.returncode != 0:
             raise RuntimeError("build of souffle failed; see %s/build.log" % BUILD_ROOT)
         if not quiet:
